@@ -23,6 +23,9 @@ package html
 //@   ensures[F]  result ==> forall(k, 0, len(b), l.r.buf[l.r.pos+k] == b[k])
 //@   ensures[F]  @nonzero: result ==> forall(k, l.r.pos, l.r.pos + len(b), l.r.buf[k] != 0)
 //@   ensures[F]  @mismatch: !result ==> exists(k, 0, len(b), l.r.buf[l.r.pos+k] != b[k])
+// the same with the witness as an index (k+0 keeps the quantifier over indices instead of addresses of b): the form in which
+// callers carry the fact across loops
+//@   ensures[F]  @mismatch-idx: !result ==> exists(k, 0, len(b), l.r.buf[l.r.pos+k] != b[k+0])
 //@   loop 1 invariant -1 <= rangeindex && rangeindex < len(b) && l.r.pos + rangeindex + 1 <= len(l.r.buf)-1
 //@   loop 1 invariant[F] forall(j, 0, rangeindex+1, l.r.buf[l.r.pos+j] == b[j])
 //@   loop 1 invariant[F] forall(q, l.r.pos, l.r.pos+rangeindex+1, l.r.buf[q] != 0)
@@ -194,6 +197,13 @@ package html
 //@   ensures[F,C09] @lower-attr: result0 == AttributeToken && len(l.tmplBegin) == 0 ==> forall(k, 0, len(l.text), !isUpperC(l.text[k]))
 //@   ensures[F,C09] @has-template: l.hasTmpl ==> len(l.tmplBegin) > 0
 //@   loop * candidate[F] !l.hasTmpl
+// a token that starts in content is the template token whenever the opening delimiter stands at its first byte (whatever
+// that delimiter begins with: '<%' and '<?' must win over tag-open)
+//@   ensures[F,C09] @template-first: len(l.tmplBegin) > 0 && !old(l.inTag) && old(l.rawTag) == 0 && result0 != TemplateToken && result0 != ErrorToken ==>
+//@        exists(k, 0, len(l.tmplBegin), old(l.r.buf[l.r.pos + k]) != old(l.tmplBegin[k]))
+//@   loop 2 invariant[F] l.r.pos > old(l.r.pos) && !old(l.inTag) && len(l.tmplBegin) > 0 ==> exists(k, 0, len(l.tmplBegin), old(l.r.buf[l.r.pos + k]) != old(l.tmplBegin[k]))
+//@   loop * candidate[F] sameBytesExcept(0, 0)
+//@   loop * candidate[F] sameSlice(l.tmplBegin, old(l.tmplBegin))
 //@   loop * candidate[F] l.rawTag == 0
 //@   requires[T] l.r.start == l.r.pos
 //@   ensures[T,C02] @slice: result0 != ErrorToken ==> len(result1) > 0 && cap(result1) == len(result1) &&
